@@ -328,4 +328,47 @@ theorem CompuShape.ok_of_ttCheck (l : CompuShape) (ity pty : DType) (scales : Li
   · obtain ⟨c, rfl, hb⟩ := key v i hp
     exact hb hacc
 
+/-! ### LINEAR over a small unsigned object: the two hypotheses by enumeration of the object's range -/
+
+/-- decidable (for small `o.bl`): every valid internal value the unsigned object can hold is converted by the decoder -/
+def CompuShape.linCheck (l : CompuShape) : Bool :=
+  (List.range (2 ^ l.o.bl)).all fun n =>
+    !(match l.m.validI (.int (n : Int)) with | .ok true => true | _ => false) || (l.i2p (.int (n : Int))).isSome
+
+theorem CompuShape.ok_of_linCheck (l : CompuShape) (s : LinSeg) (hmeth : l.m = .linear s) (hity : s.ity.isInt = true)
+    (hfac : ¬ absR s.factor < eps) (ho : l.o.ok) (hkind : l.o.kind = .uint32) (hconv : l.cm.isConv = true)
+    (hm : l.cm.method? l.o.bt l.phys = some l.m) (hchk : l.linCheck = true) : l.ok := by
+  have key : ∀ v i, l.p2i v = .ok i → ∃ c, i = .int c ∧ (l.o.accepts (.int c) = true → (l.i2p (.int c)).isSome = true) := by
+    intro v i hp
+    obtain ⟨p, iv, _, hvp, hp2i, hvi, hof, _⟩ := dopP2I_strict l.m v i _ _ (l.p2i_ok v i hp {})
+    rw [hmeth] at hp2i hvp
+    have hpa : s.physApplies p = .ok true := hvp
+    have hcv : s.convP2I p = .ok iv := by simpa [Method.p2i, hpa, bind, Except.bind] using hp2i
+    have hint : ∃ c, iv = .int c := by
+      unfold LinSeg.convP2I at hcv
+      cases hn : p.num? with
+      | none => rw [hn] at hcv; cases hcv
+      | some y =>
+        rw [hn] at hcv
+        simp only [hfac, if_false, hity, if_true, Except.ok.injEq] at hcv
+        exact ⟨_, hcv.symm⟩
+    obtain ⟨c, rfl⟩ := hint
+    simp only [ofVal?, Option.some.injEq] at hof
+    subst hof
+    refine ⟨c, rfl, fun hacc => ?_⟩
+    simp only [Obj.accepts, hkind, Bool.and_eq_true, decide_eq_true_eq] at hacc
+    have hmem : c.toNat ∈ List.range (2 ^ l.o.bl) := by
+      rw [List.mem_range]
+      have h2 : c < ((2 ^ l.o.bl : Nat) : Int) := by push_cast; exact hacc.2
+      omega
+    have := List.all_eq_true.mp hchk c.toNat hmem
+    have hc : ((c.toNat : Nat) : Int) = c := Int.toNat_of_nonneg hacc.1
+    rw [hc] at this
+    simpa [hvi] using this
+  refine ⟨ho, Or.inr hkind, hconv, hm, fun v i hp => ?_, fun v i hp hacc => ?_⟩
+  · obtain ⟨c, hc, _⟩ := key v i hp
+    exact ⟨c, hc⟩
+  · obtain ⟨c, rfl, hb⟩ := key v i hp
+    exact hb hacc
+
 end OdxVerif.Codec
